@@ -18,6 +18,7 @@ import Flamego.Driver.Noop
 import Flamego.Driver.Dsl
 import Flamego.Driver.Parser
 import Flamego.Driver.App
+import Flamego.Driver.AppFull
 import Flamego.Driver.ConcReq
 open Flamego Flamego.Driver
 
@@ -41,6 +42,7 @@ def dispatch (o : Oracle) (kind : String) (args : List String) (body : List (Lis
   | "dsl" => Dsl.session o.engine args body
   | "parser" => Parser.session args body
   | "app" => Flamego.Driver.App.session o.engine args body
+  | "appfull" => Flamego.Driver.AppFull.session o.engine args body
   | _ => "bad-kind" :: body.map (fun _ => "bad-kind")
 
 def dispatchQueries (kind : String) (args : List String) (body : List (List String)) : List String :=
@@ -48,6 +50,7 @@ def dispatchQueries (kind : String) (args : List String) (body : List (List Stri
   | "router" => Router.queries args body
   | "access" => Access.queries body
   | "app" => Router.queries args body
+  | "appfull" => Router.queries args body
   | _ => []
 
 partial def readLines (h : IO.FS.Stream) (acc : Array String) : IO (Array String) := do
